@@ -71,8 +71,9 @@ type world struct {
 	heavy    []int
 	curB     *sess.Behaviour // the sequence being replayed and the index of the current step
 	curK     int
-	suspects []suspect // sequences whose connection was closed since the server was last seen idle
-	isolated bool      // this world re-runs one suspect alone: no CPU checks inside the steps
+	suspects []suspect       // sequences whose connection was closed since the server was last seen idle
+	isolated bool            // this world re-runs one suspect alone: no CPU checks inside the steps
+	found    map[string]bool // isolated world: the keys it would have reported
 }
 
 // suspect: a replayed prefix of a sequence, after which the client closed the connection.
@@ -144,7 +145,52 @@ func (w *world) stop() {
 	w.srv.Stop()
 }
 
+// timed: a verdict that rests on a clock (nothing came within ...) is only reported when the same sequence, replayed
+// alone on a fresh server, ends in the same verdict again: a machine that stalls does not do so twice at the same line.
+func (w *world) timed(key, detail string) bool {
+	if !w.isolated && w.curB != nil && !w.confirmed(key) {
+		w.r.Add("clock_verdicts_not_confirmed_by_a_second_run", 1)
+		w.log = append(w.log, "(not reported, a second run on a fresh server did not show it: "+key+")")
+		return false
+	}
+	w.violate(key, detail)
+	return true
+}
+
+// confirmed replays the current sequence up to the current step alone on a fresh server.
+func (w *world) confirmed(key string) bool {
+	nw, err := newWorld(w.r, w.sh, w.source, w.seed)
+	if err != nil {
+		return true
+	}
+	defer func() {
+		if nw.srv != nil {
+			nw.stop()
+		}
+	}()
+	nw.isolated, nw.found = true, map[string]bool{}
+	nw.rend = sess.NewRenderer(w.seed)
+	nw.rend.Heavy, nw.heavy = w.heavy, w.heavy
+	nw.start = w.curB.Start
+	if nw.prelude("s1", nw.start) != nil {
+		return true
+	}
+	for k := 0; k <= w.curK && k < len(w.curB.Trace); k++ {
+		ok, err := nw.step(&w.curB.Trace[k])
+		if err != nil || !ok || nw.srv == nil {
+			break
+		}
+	}
+	return nw.found[key]
+}
+
 func (w *world) violate(key, detail string) {
+	if w.isolated {
+		if w.found != nil {
+			w.found[key] = true
+		}
+		return
+	}
 	tail := w.log
 	if len(tail) > 10 {
 		tail = tail[len(tail)-10:]
@@ -192,6 +238,9 @@ func (w *world) await(c *sess.Conn, line *sess.Line, sig string) (sess.Outcome, 
 	w.sh.mu.Lock()
 	known := w.sh.silent[sig]
 	w.sh.mu.Unlock()
+	if w.isolated {
+		known = "" // a confirmation run takes its time
+	}
 	t0 := time.Now()
 	first := idleWindow
 	if known != "" {
@@ -199,6 +248,7 @@ func (w *world) await(c *sess.Conn, line *sess.Line, sig string) (sess.Outcome, 
 	}
 	sess.StartHeartbeat()
 	cpu0 := sess.CPUTicks(pid)
+	cpuStart := cpu0
 	winStart := time.Now()
 	o := c.Do(line, first)
 	idleFor := time.Duration(0)
@@ -230,10 +280,12 @@ func (w *world) await(c *sess.Conn, line *sess.Line, sig string) (sess.Outcome, 
 			return o, "silent", waited
 		}
 	again:
-		if waited >= busyMax {
-			if busy {
-				return o, "hang", waited
-			}
+		// hung = still computing after having used the CPU time of busyMax seconds (CPU time, not wall time: a
+		// loaded machine makes everything slow, but it does not make a line cost more)
+		if busy && cpu1-cpuStart >= int64(busyMax/time.Second)*80 {
+			return o, "hang", waited
+		}
+		if waited >= 20*busyMax {
 			return o, "silent", waited
 		}
 		cpu0 = cpu1
@@ -321,10 +373,11 @@ func (w *world) step(a *sess.Act) (bool, error) {
 			where, rss0/1024, peak/1024, line.Size, o.Brief()))
 	}
 	if kind == "hang" {
-		w.sh.mu.Lock()
-		w.sh.silent[sig] = "hang"
-		w.sh.mu.Unlock()
-		w.violate(a.X+"/hang/"+phase, fmt.Sprintf("%s: no completion after %v and the server is still using CPU time (resident set %d MiB)", where, waited.Round(time.Second), peak/1024))
+		if w.timed(a.X+"/hang/"+phase, fmt.Sprintf("%s: no completion after %v and the server is still using CPU time (resident set %d MiB)", where, waited.Round(time.Second), peak/1024)) {
+			w.sh.mu.Lock()
+			w.sh.silent[sig] = "hang"
+			w.sh.mu.Unlock()
+		}
 	}
 	if bloated || kind == "hang" {
 		w.restart()
@@ -346,11 +399,12 @@ func (w *world) step(a *sess.Act) (bool, error) {
 	insync := true
 	switch {
 	case kind == "silent":
-		w.sh.mu.Lock()
-		w.sh.silent[sig] = "silent"
-		w.sh.mu.Unlock()
-		w.violate(a.X+"/no-completion/"+phase, fmt.Sprintf("%s: a complete line, but no completion arrived (%v, server idle: it waits for more input); the specification wants one of %v",
-			where, waited.Round(100*time.Millisecond), a.Res))
+		if w.timed(a.X+"/no-completion/"+phase, fmt.Sprintf("%s: a complete line, but no completion arrived (%v, server idle: it waits for more input); the specification wants one of %v",
+			where, waited.Round(100*time.Millisecond), a.Res)) {
+			w.sh.mu.Lock()
+			w.sh.silent[sig] = "silent"
+			w.sh.mu.Unlock()
+		}
 		insync = false
 	case o.Status == "":
 		w.violate(a.X+"/closed/"+phase, fmt.Sprintf("%s: %s; the specification wants one of %v and the connection kept open", where, o.Brief(), a.Res))
@@ -378,7 +432,7 @@ func (w *world) step(a *sess.Act) (bool, error) {
 		}
 		if a.Close {
 			if end := c.Await(watch); !end.Closed {
-				w.violate(a.X+"/not-closed/"+phase, fmt.Sprintf("%s: the specification closes the connection here (LOGOUT or error limit); the server did not (%s)", where, end.Brief()))
+				w.timed(a.X+"/not-closed/"+phase, fmt.Sprintf("%s: the specification closes the connection here (LOGOUT or error limit); the server did not (%s)", where, end.Brief()))
 				insync = false
 			}
 			c.Close()
@@ -425,7 +479,7 @@ func (w *world) probeOthers(a *sess.Act, sig, where string) bool {
 			if w.crashed(where) {
 				return false
 			}
-			w.violate(kindKey(sig, "others-affected"), fmt.Sprintf("after %s on another connection, the NOOP of session %s was answered: %s %s", where, t, o.Brief(), o.Garbage))
+			w.timed(kindKey(sig, "others-affected"), fmt.Sprintf("after %s on another connection, the NOOP of session %s was answered: %s %s", where, t, o.Brief(), o.Garbage))
 			w.restart()
 			return false
 		}
@@ -469,14 +523,14 @@ func (w *world) afterDisconnect(sig, where string) (bool, error) {
 		if w.crashed(where) {
 			return false, nil
 		}
-		w.violate(kindKey(sig, "no-new-connections"), fmt.Sprintf("after %s and a disconnect, a new connection was not greeted: %v", where, err))
+		w.timed(kindKey(sig, "no-new-connections"), fmt.Sprintf("after %s and a disconnect, a new connection was not greeted: %v", where, err))
 		w.restart()
 		return false, nil
 	}
 	o := c.Cmd("NOOP", watch)
 	c.Close()
 	if o.Status != "OK" {
-		w.violate(kindKey(sig, "no-new-connections"), fmt.Sprintf("after %s and a disconnect, NOOP on a new connection: %s", where, o.Brief()))
+		w.timed(kindKey(sig, "no-new-connections"), fmt.Sprintf("after %s and a disconnect, NOOP on a new connection: %s", where, o.Brief()))
 	}
 	return w.idleAfterClose(sig), nil
 }
@@ -909,7 +963,7 @@ func run(r *ev.Run, tier, replay string) {
 	r.Set("rule", "classes: TLC enumerates exhaustively every sequence of input classes of the configured length from each start phase (NotAuth, Auth, Selected) and the whole graph of the consecutive-error counter, with the acceptable results; bytes: each class occurrence is rendered as one of several concrete byte strings chosen by the seed (VERIF_SEED); evaluations = lines sent; non-trivial = a malformed / odd / cut-off line (not the valid commands in between); distinct = distinct (class, byte string). classes covered and instances tried are reported separately (input_classes_covered, phase_class_pairs_covered, malformed_instances_tried_distinct)")
 	r.Assumptions = []string{
 		"inside a class the bytes are sampled, not exhausted: the claim is exploration, not model checking",
-		"hang: no completion although the server keeps using CPU time for 30 s (quick) / 150 s (thorough); not answered: no completion and the server used no CPU time for 10 s (it waits for input); bloat: resident set +300 MiB during one line; spinning: on average more than 10% of a core over three seconds with no client connected to the worked connection",
+		"hang: no completion although the server has used 24 s (quick) / 120 s (thorough) of CPU time on the line and is still computing; not answered: no completion and the server used no CPU time for 10 s (it waits for input); bloat: resident set +300 MiB during one line; spinning: on average more than 10% of a core over three seconds with no client connected to the worked connection",
 		"a heavy line (10^6 nesting, 1 MB atom) is only explored as the first line of a sequence, followed by one NOOP",
 		"raw TLS hello: the client gives up after sending it; whether the server answers BAD or closes is not judged",
 		"the servers run without TLS; login jail time 1 ms so that failed logins inside malformed lines do not delay later lines",
